@@ -327,6 +327,18 @@ def exchange(sx, driver, kind, fault, nmax=6, plen=3, csbits=12, timeout=None, b
             sx.reach("ioerror-shape:" + f.arg)
         if out == "None" and kind in INITIATOR:
             sx.check(False, "none-returned-after-host-link-fault:%s:%s" % (tag, f.kind))
+        if f.kind in ('w', 'a') and out != "IOError" and not both and \
+                MODEL[driver] not in ('rcs380', 'acr122', 'udp'):
+            # (PN53x host protocol: every command is acknowledged within
+            # milliseconds, before anything happens on the RF side.  The
+            # ACR122 has no such stage - its one CCID answer arrives when the
+            # RF exchange is over - and the RC-S380 / UDP drivers are judged
+            # by their own rules above)
+            # the command could not be written, or the chip did not even
+            # acknowledge it: the host link is broken, whatever errno the
+            # transport gave; an RF error class (e.g. TimeoutError for
+            # ETIMEDOUT) would tell the application that the *target* failed
+            sx.check(False, "host-link-fault-reported-as-%s:%s:%s" % (out, tag, fault_name(f)))
         return out
     # ---- no host-link fault: the outcome must follow from the chip status
     if out == "IOError":
